@@ -324,6 +324,20 @@ func TransientIn(r *eng.Run, frames []*ref.Frame) [][2]int {
 	if len(cand) == 0 {
 		return nil
 	}
+	// Or exactly between two frames of a fragmented message: the Read that
+	// would fetch the first header byte of a continuation frame fails and has
+	// taken nothing.
+	var conts []*ref.Frame
+	for _, f := range frames {
+		if f.Op == ref.OpCont {
+			conts = append(conts, f)
+		}
+	}
+	if len(conts) > 0 && r.T.Chance(sim.LFaultAt, 1, 3) {
+		f := conts[r.T.Int(sim.LFaultAt, len(conts))]
+		r.Probe("temporary_error_between_fragments")
+		return [][2]int{{f.Off, f.Off + 1}}
+	}
 	f := cand[r.T.Int(sim.LFaultAt, len(cand))]
 	from := f.HdrEnd + r.T.Int(sim.LFaultAt, f.End-f.HdrEnd)
 	return [][2]int{{from, f.End}}
